@@ -123,8 +123,8 @@ class Filter(object):
             else:
                 nu2 = 0.5 * (nu_new_hz[i] + nu_new_hz[i + 1])
 
-            nu1 = min(max(nu1, self_nu_hz[0]), self_nu_hz[-1])
-            nu2 = min(max(nu2, self_nu_hz[0]), self_nu_hz[-1])
+            nu1 = min(max(nu1, self_nu_hz.min()), self_nu_hz.max())
+            nu2 = min(max(nu2, self_nu_hz.min()), self_nu_hz.max())
 
             if nu2 != nu1:
                 f.response[i] = integrate_subset(self_nu_hz, self.response, nu1, nu2)
